@@ -14,6 +14,7 @@ import (
 	"path/filepath"
 	"sort"
 	"strings"
+	"sync"
 	"time"
 )
 
@@ -691,6 +692,60 @@ func init() {
 							if e.mr != nil {
 								e.mr.FlushAll()
 							}
+						}
+					}
+					// a sign-out that arrives WHILE another request of the same session is refreshing at a slow identity provider (real-time
+					// Redis: the refresh lock has a real TTL): the sign-out waits for the refresh, and the session stays signed out
+					if redis && path == "" && dom == nil {
+						cfgR := cfg
+						cfgR.Htpasswd = nil
+						cfgR.RedisRealTime = true
+						if er, err := newEnv(c, cfgR); err == nil {
+							er.idp.rotateRT = true
+							b := newBrowser()
+							if lr := er.login(b, u, "/app/home"); lr.OK {
+								ck := b.cookieHeader()
+								time.Sleep(2100 * time.Millisecond) // older than the 1 s refresh period
+								er.idp.mu.Lock()
+								er.idp.fault = func(ep string, n int, w http.ResponseWriter, r *http.Request) bool {
+									if ep == "/token" {
+										time.Sleep(500 * time.Millisecond)
+									}
+									return false
+								}
+								er.idp.mu.Unlock()
+								var wg sync.WaitGroup
+								var so *respView
+								wg.Add(2)
+								var refreshTook time.Duration
+								go func() {
+									defer wg.Done()
+									t0 := time.Now()
+									er.do(reqSpec{Target: "/app/slow-refresh", Cookie: ck})
+									refreshTook = time.Since(t0)
+								}()
+								go func() {
+									defer wg.Done()
+									time.Sleep(120 * time.Millisecond)
+									so = er.do(reqSpec{Target: er.opts.ProxyPrefix + "/sign_out", Cookie: ck})
+								}()
+								wg.Wait()
+								er.idp.mu.Lock()
+								er.idp.fault = nil
+								er.idp.mu.Unlock()
+								time.Sleep(100 * time.Millisecond)
+								r2 := er.do(reqSpec{Target: "/app/replay", Cookie: ck})
+								c.casen("c11|signout-vs-slow-refresh", fmt.Sprint(so.Status))
+								c.count("signout:vs-slow-refresh")
+								if refreshTook > 1500*time.Millisecond {
+									// the refresh lock lasts 2 s: a machine on which the refreshing request took this long cannot vouch for the proviso
+									c.count("signout:vs-slow-refresh-skipped-slow")
+								} else if so.Status == 302 && len(r2.Hits) > 0 {
+									c.violation("C11", "a sign-out that arrived while another request was refreshing the session (identity provider answering in 500 ms) reported success, and the refresh then stored the session again: the pre-sign-out cookie still authenticates",
+										map[string]interface{}{"signout_status": so.Status, "idp_token_latency": "500ms"})
+								}
+							}
+							er.close()
 						}
 					}
 					// a sign-out (other tab) that lands between a stale request's first load and its reload under the
